@@ -21,6 +21,9 @@ Expected == DecodeAll(X["in"])
 
 \* "For every supported value, decoding its encoding returns an equal value" - and the encoding is the one the specification defines,
 \* through every encoder entry point
+\* the same for values of the typed Go kinds (byte arrays, integers, structs with tags, pointers ...): they come back equal, and what
+\* was written is the canonical encoding of the term a generic decode reads from it
+TypedValT == X.e = "tval" => (X.panic = "" /\ ~X.err /\ X.roundtrip /\ X.generic /\ X.bytes = Enc(X.term))
 EncT == X.e = "enc" => (X.panic = "" /\ ~X.err /\ X.bytes = Enc(X.term) /\ X.writer = X.bytes /\ X.reader = X.bytes /\ X.roundtrip)
 
 \* "decoding either fails with an error or yields a value whose encoding is that byte string exactly"
